@@ -9,7 +9,7 @@ that a maintainer's harmless refactor does not become a refused translation (= a
              became empty, every type annotation (`x: T = v` -> `x = v`, `x: T` dropped, argument / return annotations)
   spellings  `x.to_numpy()` -> `x.values`;  `not len(x)` -> `len(x) == 0`;  `range(0, n)` -> `range(n)`;
              `if not c: A else: B` -> `if c: B else: A` (statement and conditional expression; never an `elif` chain);
-             `"..{}..".format(a)` with auto-numbered plain fields -> the f-string
+             `"..{}..".format(a)` with auto-numbered plain fields -> the f-string;  `<literal> == x` -> `x == <literal>`
 
 Every rewrite is an equivalence of Python programs (for `.to_numpy()` / `.values`: of the pandas objects fairlearn
 uses them on), never a widening: a semantic edit inside an anchored region still reaches the lifter unchanged.
@@ -137,6 +137,14 @@ class _Normalise(ast.NodeTransformer):
         if isinstance(node.op, ast.Not) and isinstance(o, ast.Call) and isinstance(o.func, ast.Name) and o.func.id == "len" \
                 and len(o.args) == 1 and not o.keywords:
             return ast.copy_location(ast.Compare(left=o, ops=[ast.Eq()], comparators=[ast.Constant(0)]), node)
+        return node
+
+    def visit_Compare(self, node):
+        node = self.generic_visit(node)
+        # `<literal> == x` -> `x == <literal>` (equality is symmetric for the builtin / numpy / pandas operands fairlearn has)
+        if len(node.ops) == 1 and isinstance(node.ops[0], (ast.Eq, ast.NotEq)) and is_literal(node.left) \
+                and not is_literal(node.comparators[0]):
+            node.left, node.comparators = node.comparators[0], [node.left]
         return node
 
     def visit_Call(self, node):
@@ -642,4 +650,42 @@ def canon_tree(tree, pinned_by_function, extra_funcs=(), extra_methods=()):
             elif isinstance(n, ast.ClassDef):
                 walk(n.body, prefix + n.name + ".")
     walk(tree.body, "")
+    return tree
+
+
+# ------------------------------------------------------------------------------------------------ module constants
+def inline_module_numbers(tree, strings=False):
+    """Replace, in place, every load of a module-level NUMERIC constant (`NAME = <number>` bound exactly once in the module,
+    see module_constants; with strings=True also string constants) by the literal, except where a function argument or
+    local of an enclosing function / lambda shadows the name.  Undoes "move a constant to a module-level name"."""
+    consts = {k: v for k, v in module_constants(tree).items()
+              if (is_literal(v) and not (isinstance(v, ast.Constant) and (isinstance(v.value, (str, bytes, bool)) or v.value is None)))
+              or (strings and isinstance(v, ast.Constant) and isinstance(v.value, str))}
+    if not consts:
+        return tree
+
+    class T(ast.NodeTransformer):
+        def __init__(self):
+            self.shadow = [set()]
+
+        def _scoped(self, node, names):
+            self.shadow.append(self.shadow[-1] | names)
+            self.generic_visit(node)
+            self.shadow.pop()
+            return node
+
+        def visit_FunctionDef(self, node):
+            return self._scoped(node, set(binding_order(node, include_args=True)))
+
+        visit_AsyncFunctionDef = visit_FunctionDef
+
+        def visit_Lambda(self, node):
+            return self._scoped(node, {a.arg for a in _all_args(node)})
+
+        def visit_Name(self, node):
+            if isinstance(node.ctx, ast.Load) and node.id in consts and node.id not in self.shadow[-1]:
+                return ast.copy_location(copy.deepcopy(consts[node.id]), node)
+            return node
+
+    T().visit(tree)
     return tree
